@@ -610,6 +610,28 @@ def build_apps():
         apps[nm] = Application([Svc], NS_TNS, name='C17App', in_protocol=P(), out_protocol=P())
     return apps
 
+def permissive_first(world):
+    from spyne import Application, rpc, ServiceBase, Unicode
+    from spyne.protocol.xml import XmlDocument
+    from spyne.protocol.soap import Soap11, Soap12
+
+    class P(ServiceBase):
+        @rpc(Unicode, _returns=Unicode)
+        def ping(ctx, s):
+            return s
+    for Prot, wrap in ((XmlDocument, None), (Soap11, NS11), (Soap12, NS12)):
+        kw = dict(resolve_entities=True, huge_tree=True, load_dtd=True, attribute_defaults=True, no_network=False)
+        app = Application([P], NS_TNS, name='C17Permissive', in_protocol=Prot(**kw), out_protocol=Prot(**kw))
+        body = '<ping xmlns="%s"><s>x</s></ping>' % NS_TNS
+        if wrap:
+            body = '<e:Envelope xmlns:e="%s"><e:Body>%s</e:Body></e:Envelope>' % (wrap, body)
+        try:
+            call_serverbase(app, body.encode('ascii'))
+        except Exception:
+            pass
+    world.file_events(); world.net_hits()
+
+
 def call_wsgi(app, body, ctype):
     from spyne.server.wsgi import WsgiApplication
     w = WsgiApplication(app)
@@ -639,15 +661,23 @@ def call_serverbase(app, body):
     err = ctx.out_error
     return (None if err is None else getattr(err, 'faultcode', repr(err))), b''.join(ctx.out_string)
 
-def multipart(envelope):
+def multipart(envelope, by_location=False):
     b = 'C17BOUNDARY'
+    # by_location: the attachment is identified by Content-Location only (no Content-ID), the other way
+    # SwA allows; collapse_swa then takes its Content-Location branch
+    att = ['Content-Location: att1.bin'] if by_location else ['Content-ID: <att1>']
     parts = ['--' + b, 'Content-Type: text/xml; charset=utf-8', 'Content-ID: <root>', '', envelope.decode('ascii'),
-             '--' + b, 'Content-Type: application/octet-stream', 'Content-Transfer-Encoding: base64',
-             'Content-ID: <att1>', '', 'QUJD', '--' + b + '--', '']
+             '--' + b, 'Content-Type: application/octet-stream', 'Content-Transfer-Encoding: base64'] + att + \
+            ['', 'QUJD', '--' + b + '--', '']
     return '\r\n'.join(parts).encode('ascii'), 'multipart/related; boundary="%s"; start="<root>"; type="text/xml"' % b
 
 ROUTES = [('XmlDocument', 'ServerBase'), ('XmlDocument', 'WSGI'), ('Soap11', 'ServerBase'), ('Soap11', 'WSGI'),
           ('Soap12', 'ServerBase'), ('Soap12', 'WSGI'), ('Soap11', 'WSGI-multipart')]
+# oracle-only routes (the same parse sites reached another way; not fed to the correspondence):
+#   WSGI-decl          charset in Content-Type AND an XML declaration with encoding=: lxml refuses the decoded
+#                      text and _parse_xml_string falls back to a second parse call
+#   WSGI-multipart-cl  the attachment is located by Content-Location, not Content-ID
+ORACLE_ROUTES = [('Soap11', 'WSGI-decl'), ('Soap12', 'WSGI-decl'), ('Soap11', 'WSGI-multipart-cl')]
 
 def classify(status_or_code, out, transport):
     """-> 'ok' | 'syntax' | 'other'"""
@@ -676,8 +706,12 @@ def drive(apps, world, route, doc):
         elif transport == 'WSGI':
             ct = 'application/soap+xml; charset=utf-8' if proto == 'Soap12' else 'text/xml; charset=utf-8'
             status, out = call_wsgi(apps[proto], data, ct)
+        elif transport == 'WSGI-decl':
+            ct = 'application/soap+xml; charset=utf-8' if proto == 'Soap12' else 'text/xml; charset=utf-8'
+            data = b'<?xml version="1.0" encoding="UTF-8"?>' + data
+            status, out = call_wsgi(apps[proto], data, ct)
         else:
-            body, ct = multipart(data)
+            body, ct = multipart(data, by_location=(transport == 'WSGI-multipart-cl'))
             status, out = call_wsgi(apps[proto], body, ct)
     except Exception as e:
         esc = type(e).__name__
@@ -753,6 +787,10 @@ def is_bomb(family):
     return family == 'int-loop'
 
 def spyne_layer(check, world, docs, tier):
+    # a protocol instance configured permissively by its owner serves a request first, in this thread:
+    # "with default settings" must hold for the default-configured applications whatever other instances
+    # exist or have parsed before them (no configuration may leak between instances)
+    permissive_first(world)
     apps = build_apps()
     cases = []
     stats = {}
@@ -760,6 +798,7 @@ def spyne_layer(check, world, docs, tier):
         routes = ROUTES
         if tier == 'quick' and family.startswith(('nesting-', 'int-nesting', 'bomb', 'quadratic', 'many-')):
             routes = [ROUTES[check.rng.randrange(2)], ROUTES[2 + check.rng.randrange(4)], ROUTES[6]]
+        routes = list(routes) + ORACLE_ROUTES
         for route in routes:
             o = drive(apps, world, route, doc)
             proto, transport = route
@@ -771,6 +810,8 @@ def spyne_layer(check, world, docs, tier):
                                'captured': repr(o['captured'])[:400], 'response': o['out'][:400].decode('utf8', 'replace'),
                                'files_read': sorted(o['files']), 'socket_hits': o['hits']}}
             oracle(check, world, family, pos, where, o, rp)
+            if route in ORACLE_ROUTES:
+                continue
             # correspondence case
             if pos == 'between-arr' or (transport == 'WSGI-multipart' and any(d[0] == 'pe' for d in doc['decls'])):
                 # not modelled: an entity node that is a child of an Array element is handed to user code as
